@@ -57,6 +57,8 @@ struct ev_loop {
 
 	/* ev_loop_fork() was called; acted upon at the top of ev_run() */
 	int postfork;
+	/* the wall clock was stepped; acted upon when the iteration begins */
+	int jumped;
 	/* libev >= 4.31 keeps a timerfd once a periodic has been started
 	 * (to notice clock changes); it is what makes ev_loop_fork()
 	 * reschedule all periodics */
@@ -101,6 +103,18 @@ evm_set_now(double now)
 	if (now > the_loop.now) {
 		the_loop.now = now;
 	}
+}
+
+void
+evm_clock_step(double dt)
+{
+	struct ev_loop *l = &the_loop;
+
+	l->now += dt;
+	for (int i = 0; i < l->ntimers; i++) {
+		l->timers[i]->at += dt;
+	}
+	l->jumped = 1;
 }
 
 unsigned long
@@ -617,6 +631,13 @@ ev_run(struct ev_loop *l, int flags)
 			evm_host.tr_iter(l->iter, l->now);
 		}
 
+		if (l->jumped) {
+			/* libev time_update(): "time jump detected", measured:
+			 * one periodics_reschedule() before anything else of
+			 * the iteration, overdue expiries are not delivered */
+			l->jumped = 0;
+			periodics_reschedule(l);
+		}
 		poll_io(l);
 		timers_reify(l);
 		periodics_reify(l);
